@@ -313,6 +313,9 @@ def evaluate_op(case):
             out["status"] = "invalid_op"
             return out
     with genpkg.scratch() as d:
+        if options.get("files_to_include"):
+            import os
+            options = dict(options, files_to_include=[os.path.join(d, p[1:]) if p.startswith("@") else p for p in options["files_to_include"]])
         try:
             pkg, pdir, _ = genpkg.generate(d, schema_text, case["doc_text"], options, files=case.get("files"))
         except genpkg.GenError as e:
@@ -374,8 +377,19 @@ def evaluate_op(case):
                     res, doc = refexec.execute(schema, body["query"], body.get("variables") or {}, state["choose"],
                                                operation_name=body.get("operationName"), scalar_values=case.get("scalar_values"))
                 except Exception as e:  # noqa
-                    captured["handler_error"] = f"{type(e).__name__}: {e}"
-                    return httpx.Response(200, json={"data": None, "errors": [{"message": "handler: " + str(e)}]})
+                    res = None
+                    if "c05" in checks and "c01" not in checks and "c02" not in checks:
+                        # C05 judges the models against the authored selection: when the sent document is unusable (C01/C02's subject),
+                        # answer with the authored operation after the documented __typename rewrite
+                        try:
+                            res, doc = refexec.execute(schema, canonical_document(schema, case["doc_text"], case["op_name"]), body.get("variables") or {}, state["choose"],
+                                                       operation_name=case["op_name"], scalar_values=case.get("scalar_values"))
+                            captured["fallback_document"] = True
+                        except Exception:  # noqa
+                            res = None
+                    if res is None:
+                        captured["handler_error"] = f"{type(e).__name__}: {e}"
+                        return httpx.Response(200, json={"data": None, "errors": [{"message": "handler: " + str(e)}]})
                 captured["exec"] = res
                 captured["doc"] = doc
                 payload = {"data": res.data}
@@ -479,6 +493,26 @@ def norm_ast(node):
                 rec(v)
     rec(d)
     return d
+
+
+def canonical_document(schema, doc_text, op_name=None):
+    """The authored document after the documented rewrite: __typename added to every selection set on an abstract type."""
+    from graphql import FieldNode, NameNode, TypeInfo, TypeInfoVisitor, Visitor, is_abstract_type, get_named_type, print_ast, visit
+    ti = TypeInfo(schema)
+
+    class V(Visitor):
+        # the generator adds __typename to the selection set of every field whose type is abstract (not to inline fragments / fragment roots)
+        def enter_field(self, node, *_):
+            t = ti.get_type()
+            ss = node.selection_set
+            if t is not None and ss is not None and is_abstract_type(get_named_type(t)) and not any(
+                    isinstance(s_, FieldNode) and s_.name.value == "__typename" and not s_.alias for s_ in ss.selections):
+                ss.selections = (FieldNode(name=NameNode(value="__typename"), directives=(), arguments=()),) + tuple(ss.selections)
+    doc = parse(doc_text)
+    if op_name:
+        doc.definitions = tuple(d for d in doc.definitions if d.kind != "operation_definition" or (d.name and d.name.value == op_name))
+    visit(doc, TypeInfoVisitor(ti, V()))
+    return print_ast(doc)
 
 
 def capture_requests(case):
